@@ -355,6 +355,84 @@ pub fn run_child(ctx: &Ctx) -> Report {
         base += n_s;
     }
 
+    // ---- (c'') long SignedHeaders lists whose entries differ in letter case only or are prefixes of one another, in
+    //      many arrangements (sorting code paths change with the length of the list; the list is the client's text)
+    {
+        let mut lists: Vec<Vec<String>> = Vec::new();
+        for n in [8usize, 20, 21, 24, 32, 33, 48, 64, 100] {
+            let caps: Vec<String> = (0..n / 2).map(|i| format!("X-H{:02}", i)).collect();
+            let lower: Vec<String> = caps.iter().map(|c| c.to_lowercase()).collect();
+            let mut rev_lower = lower.clone();
+            rev_lower.reverse();
+            let mut rev_caps = caps.clone();
+            rev_caps.reverse();
+            let interleave = |a: &[String], b: &[String]| -> Vec<String> { a.iter().zip(b.iter()).flat_map(|(x, y)| [x.clone(), y.clone()]).collect() };
+            let base: Vec<Vec<String>> = vec![
+                caps.iter().chain(lower.iter()).cloned().collect(),
+                lower.iter().chain(caps.iter()).cloned().collect(),
+                interleave(&caps, &lower),
+                interleave(&caps, &rev_lower),
+                interleave(&rev_caps, &lower),
+                interleave(&lower, &rev_caps),
+                interleave(&rev_lower, &rev_caps),
+            ];
+            for b in &base {
+                // the arrangement itself, with host and the date in three places, and eight rotations
+                for rot in (0..b.len()).step_by((b.len() / 8).max(1)) {
+                    let mut l = b.clone();
+                    l.rotate_left(rot);
+                    l.insert(l.len() / 2, "host".into());
+                    l.push("x-amz-date".into());
+                    lists.push(l);
+                }
+            }
+            // deterministic shuffles (a fixed linear congruential sequence per list length)
+            let mut pool: Vec<String> = caps.iter().chain(lower.iter()).cloned().collect();
+            pool.push("host".into());
+            pool.push("x-amz-date".into());
+            pool.push("Host".into());
+            pool.push("content-type".into());
+            let mut x: u64 = 0x9E3779B97F4A7C15 ^ n as u64;
+            for _ in 0..if thorough { 400 } else { 60 } {
+                let mut l = pool.clone();
+                for i in (1..l.len()).rev() {
+                    x = x.wrapping_mul(6364136223846793005).wrapping_add(1442695040888963407);
+                    l.swap(i, ((x >> 33) % (i as u64 + 1)) as usize);
+                }
+                lists.push(l);
+            }
+        }
+        let n_l = lists.len() as u64 * 2;
+        let b = base;
+        let part = par_sweep(n_l, |i, st| {
+            let l = &lists[(i / 2) as usize];
+            let qc = i % 2 == 1;
+            let mut w = if qc { qbase_wire.clone() } else { base_wire.clone() };
+            let joined = l.join(";");
+            if qc {
+                // replace the X-Amz-SignedHeaders parameter
+                let parts: Vec<String> = w
+                    .uri
+                    .split('&')
+                    .map(|p| if p.contains("X-Amz-SignedHeaders=") { format!("{}X-Amz-SignedHeaders={}", if p.starts_with("/?") { "/?" } else { "" }, joined.replace(';', "%3B")) } else { p.to_string() })
+                    .collect();
+                w.uri = parts.join("&");
+            } else if let Some(h) = w.headers.iter_mut().find(|h| h.0.eq_ignore_ascii_case("authorization")) {
+                let v = String::from_utf8_lossy(&h.1).to_string();
+                let start = v.find("SignedHeaders=").unwrap_or(0);
+                let end = v[start..].find(',').map(|e| start + e).unwrap_or(v.len());
+                h.1 = format!("{}SignedHeaders={}{}", &v[..start], joined, &v[end..]).into_bytes();
+            }
+            // a few of the listed headers are present
+            for k in 0..4 {
+                w.headers.push((format!("X-H{:02}", k), b"v".to_vec()));
+            }
+            total(b + i, "signed-headers-list", w, &Cfg::basic(now), &std_prov, st);
+        });
+        st = st.merge(part);
+        base += n_l;
+    }
+
     // ---- (d) bodies
     let mut lens: Vec<usize> = vec![0, 1, 2, 3, 1000];
     lens.extend(21838..=21852);
@@ -720,7 +798,7 @@ pub fn run_child(ctx: &Ctx) -> Report {
     Report {
         stats: st,
         rule: format!(
-            "every case runs under catch_unwind inside a child process (abnormal termination = violation), with overflow checks and debug assertions on, alternately with log formatting on, against a strict key provider (panics when called without readiness; not ready at once / answer pending for a share of the cases): (a) the C13 defect product on both carriers x {{default,S3,fold}} x 3 requirement sets (incl. non-ASCII and empty names); (b) every printable ASCII byte substituted and inserted at every position of 5 URI templates, every two-character escape %c1c2 over 94^2 in path, query value and query name, 40 special URIs (asterisk-, authority-, absolute-form, truncated escapes, 40-60 kB paths / queries) x 2 carriers x 3 options; (b') 45 request targets of every form (origin, absolute, authority incl. bare host and IPv6, asterisk, empty, fragment, scheme without path) x 6 form bodies x 3 content types x {{default,S3,fold,S3+fold}} x carrier, so that the target is rebuilt under form folding; (c) every byte HeaderValue admits (tab, 0x20-0x7E, 0x80-0xFF) substituted and inserted at every{} position of Authorization / X-Amz-Date / Date / Content-Type / token values; (c') every empty, one-byte and two-byte value of a Content-Type parameter (charset in two spellings, boundary, a trailing parameter; form and JSON types) and of the Credential / SignedHeaders / Signature fields; (d) bodies of {} lengths (around 21845, 32768, 65535, up to 200000) x 8 fills (expanding bytes, pairs, UTF-8, separators, escapes) x 11 content types x fold x carrier; all 256 one-byte and every {}th two-byte body as a UTF-8 form; {} charset labels x all one-byte, every {}th two-byte and 4 special bodies; (e) 9 capacities x secret lengths 0..100 x 4 fills; (f) every C16 timestamp string on both carriers and through the unstable API; (f') server clocks within 901 s of the smallest and largest DateTime<Utc>, the epoch, years 0 / 1 / 9999 / 10000 and the 32-bit limits x 11 request dates whose UTC year is -1, 0, 9999 or 10000; (g) every subset of set fields of the three builders; (h) every SignatureError shape x 4 messages through Display/Debug/source/code/status/From<Box>; (i) derivation with empty / non-ASCII / 10 kB scopes and NaiveDate::MIN/MAX/year 0/-1/10000; canonicalisation helpers on degenerate and 1 MiB inputs. Oracle: a value or an error, never a panic, abort, hang or non-SignatureError. states = (sweep, outcome class)",
+            "every case runs under catch_unwind inside a child process (abnormal termination = violation), with overflow checks and debug assertions on, alternately with log formatting on, against a strict key provider (panics when called without readiness; not ready at once / answer pending for a share of the cases): (a) the C13 defect product on both carriers x {{default,S3,fold}} x 3 requirement sets (incl. non-ASCII and empty names); (b) every printable ASCII byte substituted and inserted at every position of 5 URI templates, every two-character escape %c1c2 over 94^2 in path, query value and query name, 40 special URIs (asterisk-, authority-, absolute-form, truncated escapes, 40-60 kB paths / queries) x 2 carriers x 3 options; (b') 45 request targets of every form (origin, absolute, authority incl. bare host and IPv6, asterisk, empty, fragment, scheme without path) x 6 form bodies x 3 content types x {{default,S3,fold,S3+fold}} x carrier, so that the target is rebuilt under form folding; (c) every byte HeaderValue admits (tab, 0x20-0x7E, 0x80-0xFF) substituted and inserted at every{} position of Authorization / X-Amz-Date / Date / Content-Type / token values; (c') every empty, one-byte and two-byte value of a Content-Type parameter (charset in two spellings, boundary, a trailing parameter; form and JSON types) and of the Credential / SignedHeaders / Signature fields; (c'') SignedHeaders lists of 10..104 entries that differ in letter case only, in 7 structured arrangements x 8 rotations and 60 (thorough 400) fixed shuffles per length, on both carriers; (d) bodies of {} lengths (around 21845, 32768, 65535, up to 200000) x 8 fills (expanding bytes, pairs, UTF-8, separators, escapes) x 11 content types x fold x carrier; all 256 one-byte and every {}th two-byte body as a UTF-8 form; {} charset labels x all one-byte, every {}th two-byte and 4 special bodies; (e) 9 capacities x secret lengths 0..100 x 4 fills; (f) every C16 timestamp string on both carriers and through the unstable API; (f') server clocks within 901 s of the smallest and largest DateTime<Utc>, the epoch, years 0 / 1 / 9999 / 10000 and the 32-bit limits x 11 request dates whose UTC year is -1, 0, 9999 or 10000; (g) every subset of set fields of the three builders; (h) every SignatureError shape x 4 messages through Display/Debug/source/code/status/From<Box>; (i) derivation with empty / non-ASCII / 10 kB scopes and NaiveDate::MIN/MAX/year 0/-1/10000; canonicalisation helpers on degenerate and 1 MiB inputs. Oracle: a value or an error, never a panic, abort, hang or non-SignatureError. states = (sweep, outcome class)",
             if thorough { "" } else { " (every 3rd for Authorization)" }, lens.len(), two_stride, LABELS.len(), label_stride
         ),
         bounds: json!({"cases": base}),
